@@ -818,3 +818,9 @@ fn floor_log2_of_long(x: u64) -> u8 {
         }
     }
 }
+
+/// Verification hook (feature `verif-hooks`): `determine_pseudo_phase(lg_k, num_coupons)`.
+#[cfg(feature = "verif-hooks")]
+pub(super) fn verif_determine_pseudo_phase(lg_k: u8, num_coupons: u32) -> u8 {
+    determine_pseudo_phase(lg_k, num_coupons)
+}
